@@ -78,6 +78,7 @@ func runShutdownSchedule(acts []string) (obs string, viol []string) {
 	r := &sdRun{s: &kmip.Server{}, l: rec.NewListener(), byID: map[int]*sdConn{}, sdRet: make(chan error, 1), serveRet: make(chan error, 1)}
 	r.ctx, r.cancel = context.WithCancel(context.Background())
 	defer r.cancel()
+	cancelled := false
 	r.s.SessionAuthHandler = func(c net.Conn) (interface{}, error) {
 		rc := c.(*rec.Conn)
 		r.mu.Lock()
@@ -198,6 +199,7 @@ func runShutdownSchedule(acts []string) (obs string, viol []string) {
 			r.callShutdown()
 		case "X":
 			r.cancel()
+			cancelled = true
 		}
 		time.Sleep(2 * time.Millisecond)
 	}
@@ -207,6 +209,11 @@ func runShutdownSchedule(acts []string) (obs string, viol []string) {
 	sd := "idle"
 	if r.sdCalled {
 		sd = "waiting"
+		// the property, judged directly: once its context has ended Shutdown returns (the context's error, or nil if the
+		// drain won the race)
+		if cancelled && r.sdResult == nil {
+			r.viol = append(r.viol, "Shutdown did not return after its context had ended (sessions still open)")
+		}
 	}
 	if r.sdResult != nil {
 		if *r.sdResult == nil {
